@@ -349,9 +349,13 @@ type c20G struct {
 	r    *core.RNG
 	refs []string
 	tame bool // override part: only benign, balanced raw HTML
+	// inLink > 0 while link text is generated: an autolink there would put an
+	// <a> inside an <a>, which HTML cannot represent - the DOM the observer
+	// builds is then the parser's repair, not the document's structure
+	inLink int
 }
 
-var c20Words = []string{"alpha", "beta", "gamma", "delta", "x", "Foo", "bar42", "naïve", "δοκιμή", "end.", "comma,", "(paren)", "semi;", "q?", "Title Case", "it's", "100%", "a/b", "key=value", "e.g."}
+var c20Words = []string{"alpha", "beta", "gamma", "delta", "x", "Foo", "bar42", "naïve", "δοκιμή", "end.", "comma,", "(paren)", "semi;", "q?", "Upper Case", "it's", "100%", "a/b", "key=value", "e.g."}
 
 func (g *c20G) word() string { return core.Pick(g.r, c20Words) }
 
@@ -403,7 +407,9 @@ func (g *c20G) piece(depth int) string {
 		}
 		return "`" + body + "`"
 	case n < 79 && depth < 3:
+		g.inLink++
 		txt := g.inline(depth+1, false)
+		g.inLink--
 		switch r.Intn(4) {
 		case 0:
 			label := fmt.Sprintf("ref%d", len(g.refs))
@@ -427,6 +433,9 @@ func (g *c20G) piece(depth int) string {
 		}
 		return "![" + alt + "](" + c20NonEmpty(core.Pick(r, c20Dests)) + t + ")"
 	case n < 87:
+		if g.inLink > 0 {
+			return g.word()
+		}
 		return core.Pick(r, []string{"<http://x.y/z?a=b&c=d>", "<https://ex.com/{{ p }}>", "<me@x.yz>", "www.example.com/a_b", "https://ex.com/p?q=1&r=<2", "http://ex.com/a(b)c.", "<ftp://h/p>", "user@example.com", "<mailto:a@b.c>", "www.a.b/~x*y*"})
 	case n < 92:
 		if g.tame {
